@@ -20,6 +20,10 @@ type CRLRevocationChecker struct {
 	logger          *zap.Logger
 	crlUpdateTicker *time.Ticker
 	crlUpdateStop   chan struct{}
+	// crlUpdateMutex lets the updates of this validator run one at a time. It belongs to the validator: the crls of
+	// another validator of the process are none of its business, and a download which hangs there must not keep
+	// this one from updating
+	crlUpdateMutex sync.Mutex
 	// lastCrlUpdateFinishTime is only accessed while holding crlUpdateMutex
 	lastCrlUpdateFinishTime time.Time
 }
@@ -176,8 +180,8 @@ func (c *CRLRevocationChecker) initCRLUpdateTicker() {
 
 }
 func (c *CRLRevocationChecker) updateCRLs(forceUpdate bool) {
-	crlUpdateMutex.Lock()
-	defer crlUpdateMutex.Unlock()
+	c.crlUpdateMutex.Lock()
+	defer c.crlUpdateMutex.Unlock()
 
 	// If crl update was recently done, don't do it again for now. Although the ticker
 	// drops missed ticks for us, config reloads discard the old ticker and replace it
@@ -221,5 +225,4 @@ func DeregisterCRLWorkDirUsage(crlConfig *config.CRLConfig) {
 var (
 	workDirsInUse     = make(map[string]int)
 	workDirInUseMutex sync.Mutex
-	crlUpdateMutex    sync.Mutex
 )
